@@ -66,6 +66,9 @@ type Trk struct {
 type Op struct {
 	K string `json:"k"`
 	V int64  `json:"v,omitempty"`
+	// Ctx: context of a blocking call: "" = 10 s deadline (cancellable), "bg" = context.Background(),
+	// "todo" = context.TODO() - contexts that can never end (Done() == nil)
+	Ctx string `json:"ctx,omitempty"`
 }
 
 type Item struct {
@@ -369,12 +372,23 @@ type runner struct {
 const deadline = 10 * time.Second
 const giveUp = 30 * time.Second // harness bound, far beyond every deadline: only a hung run reaches it
 
+func (th *thread) mkctx() {
+	switch th.op.Ctx {
+	case "bg":
+		th.ctx, th.cancel = context.Background(), func() {}
+	case "todo":
+		th.ctx, th.cancel = context.TODO(), func() {}
+	default:
+		th.ctx, th.cancel = context.WithTimeout(context.Background(), deadline)
+	}
+}
+
 func (r *runner) start(t int) {
 	th := r.th[t]
 	th.started = true
 	th.t0 = time.Now()
 	if th.ctx == nil {
-		th.ctx, th.cancel = context.WithTimeout(context.Background(), deadline)
+		th.mkctx()
 	}
 	r.wg.Add(1)
 	go func() {
@@ -646,7 +660,7 @@ func (r *runner) run() {
 					th.skip = r.cont.Len()
 					th.started = true
 					th.t0 = time.Now()
-					th.ctx, th.cancel = context.WithTimeout(context.Background(), deadline)
+					th.mkctx()
 					spawned = append(spawned, it.T)
 					r.wg.Add(1)
 					go func() {
@@ -751,7 +765,7 @@ type outcome struct {
 
 func execCase(run *kit.Run, c Case, verbose bool) {
 	if c.Procs > 0 {
-		runtime.GOMAXPROCS(c.Procs)
+		defer runtime.GOMAXPROCS(runtime.GOMAXPROCS(c.Procs))
 	}
 	if c.Stress > 0 {
 		stressCancel(run, c, verbose)
@@ -885,7 +899,9 @@ func execCase(run *kit.Run, c Case, verbose bool) {
 	seen := map[int64]int{}
 	for i, th := range r.th {
 		if th.started && th.done.Load() && th.res.K == "val" {
-			if !pushed[th.res.V] || seen[th.res.V] > 0 {
+			if !pushed[th.res.V] && r.closed {
+				fail(i, "phantom-after-close", fmt.Sprintf("thread %d returned (%d, nil): a value that was never pushed, after Close", i, th.res.V))
+			} else if !pushed[th.res.V] || seen[th.res.V] > 0 {
 				fail(i, "bad-value", fmt.Sprintf("thread %d returned %d (not pushed, or returned twice)", i, th.res.V))
 			}
 			seen[th.res.V]++
@@ -1411,6 +1427,31 @@ func (b *builder) rspawn(k string) Item {
 }
 
 var bursts = []float64{0.5, 1, 1.5, 2, 2.75, 3, 5}
+
+// assignCtx gives some of the blocking operations that the script never cancels a context that cannot end
+// (context.Background / context.TODO): mixed populations of cancellable and non-cancellable waiters.
+func assignCtx(r *kit.Rand, c *Case) {
+	if c.Stress > 0 {
+		return
+	}
+	cancelled := map[int]bool{}
+	for _, st := range c.Script {
+		for _, it := range st.Items {
+			if it.K == "cancel" {
+				cancelled[it.T] = true
+			}
+		}
+	}
+	mode := r.Intn(4) // 0: all cancellable, 1: all that can be, 2,3: mixed
+	for i := range c.Ops {
+		if !isBlocking(c.Ops[i].K) || cancelled[i] || c.Window == i || mode == 0 {
+			continue
+		}
+		if mode == 1 || r.Bool() {
+			c.Ops[i].Ctx = pick(r, "bg", "bg", "todo")
+		}
+	}
+}
 
 func queueTrk(r *kit.Rand) Trk {
 	if r.Chance(1, 3) {
@@ -2150,7 +2191,6 @@ func main() {
 			execCase(run, Case{ID: id, Family: "stress-cancel", Window: -1, Stress: 2000, Waiters: 64, Procs: p}, false)
 			id++
 		}
-		runtime.GOMAXPROCS(runtime.NumCPU())
 	} else {
 		execCase(run, Case{ID: id, Family: "stress-cancel", Window: -1, Stress: 40, Waiters: 32}, false)
 		id++
@@ -2172,9 +2212,10 @@ func main() {
 			}
 			x -= f.w
 		}
+		assignCtx(r, &c)
 		c.ID = id
 		id++
-		if run.Thorough() {
+		if run.Thorough() && c.Procs == 0 {
 			c.Procs = procs[r.Intn(len(procs))]
 			if c.Procs == 0 {
 				c.Procs = runtime.NumCPU()
